@@ -35,7 +35,8 @@ VARIABLES cfg,   \* [role, pmce, limit, hmode, herrAt, policy]
 
 S0 == [pos |-> 1, frag |-> FALSE, rd |-> "none", start |-> 0, cur |-> 0,
        used |-> 0, got |-> 0, mlen |-> 0, mhuge |-> FALSE,
-       failed |-> FALSE, nrid |-> -1, wild |-> FALSE, hn |-> 0]
+       failed |-> FALSE, nrid |-> -1, wild |-> FALSE, hn |-> 0,
+       zgot |-> 0, zobs |-> 0]   \* compressed message: plaintext bytes delivered / side effects already reported
 
 Min(a, b) == IF a < b THEN a ELSE b
 Rng(q) == {q[i] : i \in DOMAIN q}
@@ -144,7 +145,7 @@ NRLoop(st, obs, len) ==
   IN
   IF k = "data" THEN
       LET s2 == Enter(st) IN
-      Out([s2 EXCEPT !.rd = "open", !.start = st.pos, !.got = 0], obs, "data", FALSE)
+      Out([s2 EXCEPT !.rd = "open", !.start = st.pos, !.got = 0, !.zgot = 0, !.zobs = 0], obs, "data", FALSE)
   ELSE IF k = "cont" THEN
       \* continuation of an abandoned message: its payload must be skipped
       IF Arrived(fr[st.pos])
@@ -268,7 +269,8 @@ NRNext(st, w, e) ==
 
 (* Read reported (n, err, obs) for a request of k bytes. *)
 RDAllowed(st, w, k, n, e, obs) ==
-  IF st.rd = "eof" THEN n = 0 /\ e.cls = "eof" /\ obs = << >>
+  \* after the end of the message nothing more is delivered (what error a further Read reports is not specified)
+  IF st.rd = "eof" THEN n = 0 /\ obs = << >>
   ELSE IF st.rd = "err" THEN n = 0 /\ IsRealErr(e) /\ obs = << >>
   ELSE IF w.res = "wild" THEN TRUE
   ELSE /\ ObsOK(w, obs)
@@ -297,14 +299,43 @@ RDNext(st, w, n, e) ==
   ELSE IF w.res = "eom" THEN [w.s EXCEPT !.rd = "eof"]
   ELSE [w.s EXCEPT !.rd = "err", !.failed = TRUE]
 
+(***************************************************************************)
+(* Read(k) on a COMPRESSED message.  The inflater decouples the bytes      *)
+(* delivered from the position on the wire (it reads ahead), so the model  *)
+(* keeps the wire position at the start of the message and only counts:    *)
+(* zgot plaintext bytes delivered so far, zobs side effects (handlers,     *)
+(* replies) of the whole-message walk already reported by earlier calls.   *)
+(* w is RALoop from the message start.                                     *)
+(***************************************************************************)
+DropObs(w, k) == [w EXCEPT !.obs = SubSeq(w.obs, k + 1, Len(w.obs))]
+ZWhole(st) == fr[st.start].plain
+
+RDZAllowed(st, w, k, n, e, obs) ==
+  LET rest == DropObs(w, st.zobs)
+      allObs == Len(obs) >= Len(rest.obs)
+  IN /\ n >= 0 /\ n <= k
+     /\ \/ ~allObs /\ Len(obs) <= Len(rest.obs) /\ ObsSeqMatch(SubSeq(rest.obs, 1, Len(obs)), obs)
+        \/ allObs /\ ObsOK(rest, obs)
+     /\ IF e.cls = "nil" THEN n >= 1 /\ (w.res = "eom" => st.zgot + n <= ZWhole(st))
+        ELSE IF e.cls = "eof" THEN w.res = "eom" /\ allObs /\ st.zgot + n = ZWhole(st)
+        ELSE \* a real error: only where the walk meets one (or a fault arriving with the last bytes)
+             /\ allObs
+             /\ \/ ErrOutcome(w.res) /\ ErrFits(w, e)
+                \/ w.res = "eom" /\ fr[w.s.cur].arr = "with"
+
+RDZNext(st, w, n, e, obs) ==
+  IF e.cls = "nil" THEN [st EXCEPT !.zgot = st.zgot + n, !.zobs = st.zobs + Len(obs)]
+  ELSE IF e.cls = "eof" THEN [w.s EXCEPT !.rd = "eof"]
+  ELSE [w.s EXCEPT !.rd = "err", !.failed = TRUE]
+
 (* io.ReadAll reported (n, err, obs): err = nil means "message complete".  *)
 RAAllowed(st, w, n, e, obs) ==
-  IF st.rd = "eof" THEN n = 0 /\ e.cls = "nil" /\ obs = << >>
+  IF st.rd = "eof" THEN n = 0 /\ obs = << >>
   ELSE IF st.rd = "err" THEN n = 0 /\ IsErr(e) /\ obs = << >>
   ELSE IF w.res = "wild" THEN TRUE
   ELSE /\ ObsOK(w, obs)
        /\ LET \* compressed message: the delivered length is the plaintext length
-               whole == IF fr[st.start].comp THEN fr[st.start].plain ELSE w.s.got - st.got
+               whole == IF fr[st.start].comp THEN fr[st.start].plain - st.zgot ELSE w.s.got - st.got
            IN
           IF w.res = "eom" THEN
              \* everything arrived: complete unless the fault came with the
